@@ -100,38 +100,69 @@ def _r1(ck: Checker, prog: Program):
     R = lambda n: sp.Symbol(n, real=True)   # noqa: E731
     gi, sl, NONE = sp.Function("getitem"), sp.Function("slice"), sp.Symbol("None")
     FRQ, AMP, SR, KW = R("frequency"), R("amplitude"), R("search_range_in_hz"), R("find_peaks_kwargs")
-    # ---- range -> index bounds
-    f = cls.methods["_search_range_to_index_range"]
-    if f.params[:2] != ["frequency", "search_range_in_hz"]:
+    # ---- the bounded search, by value over the four worlds (lower limit None / given) x (upper limit None / given): what reaches the
+    #      unbounded search is frequency[lo:hi] and amplitude[lo:hi] with one pair of bounds - whatever helper computes them, under
+    #      whatever name, returning a pair or a slice object
+    from ..pathtable import PathTable, outcomes, same_rel, negate, specialise, tidy_items
+    f = cls.methods["_find_peak_bounded"]
+    if f.params[:4] != ["frequency", "amplitude", "search_range_in_hz", "find_peaks_kwargs"]:
         raise AnalysisError(f"{f.qualname}: parameters are {f.params}")
-    from ..pathtable import PathTable, outcomes, same_rel, negate
-    leaves = PathTable(prog, f.module, call_hook=_norecv(pkg_call_hook(prog, f.module, cls, self_name="HvsrCurve")), unroll=True, scope=f).leaves(f.node.body)
+    fnm = lambda x: getattr(getattr(x, "func", None), "__name__", "")     # noqa: E731
+
+    def hook_b(call, T):
+        if call_name(call) == "_find_peak_unbounded":
+            g = cls.methods["_find_peak_unbounded"]
+            b = bind_call(call, g.params)
+            return sp.Function("_find_peak_unbounded")(*[T.tr(b[p_]) if p_ in b else sp.Function("default")(sp.Symbol(p_)) for p_ in g.params])
+        return None
+    leaves = PathTable(prog, f.module, call_hook=hook_b, unroll=True, scope=f, inline_depth=3).leaves(f.node.body)
     lims = [gi(SR, sp.Integer(0)), gi(SR, sp.Integer(1))]
     dflt = [sp.Integer(0), sp.Function("len")(FRQ)]
-    alt_dflt = [[sp.Integer(0)], [sp.Function("len")(FRQ), R("frequency.size"), gi(R("frequency.shape"), sp.Integer(0))]]
+    alt_dflt = [[sp.Integer(0), NONE], [sp.Function("len")(FRQ), R("frequency.size"), gi(R("frequency.shape"), sp.Integer(0)), NONE]]
     GIVEN = [sp.Symbol("'<lower limit>'", real=True), sp.Symbol("'<upper limit>'", real=True)]
-    problems = {0: [], 1: []}
+    problems = {0: [], 1: [], 2: []}
     for lo_none in (True, False):
         for hi_none in (True, False):
             world = {lims[0]: NONE if lo_none else GIVEN[0], lims[1]: NONE if hi_none else GIVEN[1]}
             rows = [r for r in outcomes(leaves, world) if r["exit"] == "return"]
             if not rows:
                 raise AnalysisError(f"{f.qualname}: no returning path for limits {world}")
-            for r in rows:
-                v = r["value"]
-                if not isinstance(v, sp.Tuple) or len(v) != 2:
-                    problems[0].append(f"returns {v}")
-                    continue
-                for k, none in ((0, lo_none), (1, hi_none)):
-                    if none:
-                        if v[k] not in alt_dflt[k]:
-                            problems[k].append(f"None -> {v[k]}")
-                    else:
-                        # the index range [lo, hi) is half-open: the sample nearest to the upper limit may lie inside the range and is
-                        # then the right-hand neighbour of the last interior candidate, so the upper bound is one past it
-                        nearest = sp.Function("argmin")(sp.Abs(FRQ - GIVEN[k]))
-                        if not equal(v[k], nearest + k):
-                            problems[k].append(f"given limit -> {v[k]}")
+            vals = {tidy_items(specialise(r["value"], world)) for r in rows}
+            if len(vals) != 1:
+                problems[2].append(f"what is searched depends on more than the requested range and the grid (decisions {[str(c_)[:60] for r in rows for c_ in r['conds']][:2]})")
+                continue
+            v = next(iter(vals))
+            calls = {a_ for a_ in sp.preorder_traversal(v) if fnm(a_) == "_find_peak_unbounded"}
+            if len(calls) != 1:
+                problems[2].append(f"{len(calls)} unbounded searches")
+                continue
+            c = next(iter(calls))
+            if v not in (c, sp.Tuple(gi(c, sp.Integer(0)), gi(c, sp.Integer(1)))):
+                problems[2].append(f"returns {str(v)[:120]}")
+            cuts = []
+            for arg, base in ((c.args[0], FRQ), (c.args[1], AMP)):
+                if fnm(arg) == "getitem" and arg.args[0] == base and fnm(arg.args[1]) == "slice" and (len(arg.args[1].args) == 2 or arg.args[1].args[2] == NONE):
+                    cuts.append(tuple(arg.args[1].args[:2]))
+                else:
+                    problems[2].append(f"the search receives {str(arg)[:100]} for {base}")
+            if len(cuts) != 2:
+                continue
+            if cuts[0] != cuts[1]:
+                problems[2].append(f"frequency is cut by {cuts[0]} and amplitude by {cuts[1]}")
+                continue
+            if len(c.args) < 3 or c.args[2] != KW:
+                problems[2].append(f"the find_peaks arguments handed on are {c.args[2] if len(c.args) > 2 else None}")
+            for k, none in ((0, lo_none), (1, hi_none)):
+                got = cuts[0][k]
+                if none:
+                    if got not in alt_dflt[k]:
+                        problems[k].append(f"None -> {got}")
+                else:
+                    # the index range [lo, hi) is half-open: the sample nearest to the upper limit may lie inside the range and is
+                    # then the right-hand neighbour of the last interior candidate, so the upper bound is one past it
+                    nearest = sp.Function("argmin")(sp.Abs(FRQ - GIVEN[k]))
+                    if not equal(got, nearest + k):
+                        problems[k].append(f"given limit -> {got}")
     for k, name in ((0, "lower"), (1, "upper")):
         if not problems[k]:
             ck.ok("C08.R1", f.qualname, f"{name} index bound: None -> {dflt[k]}; else argmin|frequency - limit|" + (" + 1 (half-open range keeps the nearest sample)" if k else ""))
@@ -141,19 +172,11 @@ def _r1(ck: Checker, prog: Program):
                          f"argmin|frequency - limit|{' + 1' if k else ''} otherwise (a limit of 0 is a limit"
                          + ("; the slice [lo:hi] is half-open, so stopping at the nearest sample drops it: a range reaching to or beyond the end of the grid "
                             "loses the last sample and the local maximum next to it" if k else "") + ")", loc=f.loc())
-    # ---- bounded
-    f = cls.methods["_find_peak_bounded"]
-    leaves = [l for l in _table(prog, f, cls, "HvsrCurve") if l.exit == "return"]
-    I = sp.Function("_search_range_to_index_range")(FRQ, SR)
-    cut = sl(gi(I, sp.Integer(0)), gi(I, sp.Integer(1)), NONE)
-    call = sp.Function("_find_peak_unbounded")(gi(FRQ, cut), gi(AMP, cut), KW)
-    wants = [call, sp.Tuple(gi(call, sp.Integer(0)), gi(call, sp.Integer(1)))]
-    if len(leaves) == 1 and any(leaves[0].value == w for w in wants):
-        ck.ok("C08.R1", f.qualname, "searches frequency[lo:hi], amplitude[lo:hi] with the bounds of the requested range and returns that pair", detail=str(leaves[0].value))
+    if not problems[2]:
+        ck.ok("C08.R1", f.qualname, "searches frequency[lo:hi], amplitude[lo:hi] with the bounds of the requested range and returns that pair")
     else:
-        got = [str(l.value) for l in leaves]
         ck.violation("C08.R1", f.qualname, "bounded search",
-                     f"frequency and amplitude are not cut with the same index bounds of the requested range and searched together (returns {got}; expected {call})",
+                     f"frequency and amplitude are not cut with the same index bounds of the requested range and searched together ({'; '.join(sorted(set(problems[2]))[:3])})",
                      loc=f.loc())
     # ---- unbounded: a table over (find_peaks arguments None / given) x (candidates found / none)
     f = cls.methods["_find_peak_unbounded"]
